@@ -136,7 +136,18 @@ struct Run {
     stderr: String,
 }
 
+/// The name of the target: one case in four has a blank or a non-ASCII letter in it (such names
+/// are percent-encoded in the locator and must come back as they were on the file system).
+fn target_name(sources: &Sources) -> &'static str {
+    match sources.hash64() % 8 {
+        0 => "out file.yaml",
+        1 => "\u{f6}ut.yaml",
+        _ => "out.yaml",
+    }
+}
+
 fn setup(dir: &Scratch, sources: &Sources, cfg: Cfg, base: BaseKind, base_yaml: &str, target_exists: bool) -> Vec<String> {
+    let out = target_name(sources);
     let _ = std::fs::remove_dir_all(&dir.path);
     std::fs::create_dir_all(&dir.path).ok();
     for (name, text) in &sources.files {
@@ -148,14 +159,14 @@ fn setup(dir: &Scratch, sources: &Sources, cfg: Cfg, base: BaseKind, base_yaml: 
         BaseKind::Malformed => dir.write("base.yaml", "openapi: [unclosed\n  info: {"),
     }
     if target_exists {
-        dir.write("out.yaml", sentinel());
+        dir.write(out, sentinel());
         dir.write("wrong.yaml", sentinel());
     }
     let base_line = |prefix: &str| if base == BaseKind::None { String::new() } else { format!("base = \"{prefix}base.yaml\"\n") };
     let main = &sources.main;
     match cfg {
         Cfg::Options => {
-            let mut a = vec!["-m".to_owned(), main.clone(), "-t".to_owned(), "out.yaml".to_owned()];
+            let mut a = vec!["-m".to_owned(), main.clone(), "-t".to_owned(), out.to_owned()];
             if base != BaseKind::None {
                 a.push("-b".to_owned());
                 a.push("base.yaml".to_owned());
@@ -163,15 +174,15 @@ fn setup(dir: &Scratch, sources: &Sources, cfg: Cfg, base: BaseKind, base_yaml: 
             a
         }
         Cfg::ConfOnly => {
-            dir.write("oal.toml", &format!("[api]\nmain = \"{main}\"\ntarget = \"out.yaml\"\n{}", base_line("")));
+            dir.write("oal.toml", &format!("[api]\nmain = \"{main}\"\ntarget = \"{out}\"\n{}", base_line("")));
             vec!["--conf".to_owned(), "oal.toml".to_owned()]
         }
         Cfg::ConfOverridden => {
             dir.write("oal.toml", &format!("[api]\nmain = \"{main}\"\ntarget = \"wrong.yaml\"\n{}", base_line("")));
-            vec!["--conf".to_owned(), "oal.toml".to_owned(), "-t".to_owned(), "out.yaml".to_owned()]
+            vec!["--conf".to_owned(), "oal.toml".to_owned(), "-t".to_owned(), out.to_owned()]
         }
         Cfg::ConfInSubdir => {
-            dir.write("cfg/oal.toml", &format!("[api]\nmain = \"../{main}\"\ntarget = \"../out.yaml\"\n{}", base_line("../")));
+            dir.write("cfg/oal.toml", &format!("[api]\nmain = \"../{main}\"\ntarget = \"../{out}\"\n{}", base_line("../")));
             vec!["--conf".to_owned(), "cfg/oal.toml".to_owned()]
         }
     }
@@ -191,7 +202,10 @@ pub fn check_case(sources: &Sources, class: &str, cfg_ix: usize, base_ix: usize,
     let dir = Scratch::new("c13");
     let args = setup(&dir, sources, cfg, base, base_yaml, target_exists);
     let argv: Vec<&str> = args.iter().map(|s| s.as_str()).collect();
-    let target = dir.path.join("out.yaml");
+    let target = dir.path.join(target_name(sources));
+    if target_name(sources) != "out.yaml" {
+        r.label("odd-target-name");
+    }
     let wrong = dir.path.join("wrong.yaml");
     let mtime_before = std::fs::metadata(&target).and_then(|m| m.modified()).ok();
     let res = run_cli(&dir.path, &argv);
@@ -336,7 +350,18 @@ pub fn check_case(sources: &Sources, class: &str, cfg_ix: usize, base_ix: usize,
                             let res = lsp
                                 .did_open(&uri, detour)
                                 .and_then(|_| lsp.barrier(&uri))
-                                .and_then(|_| lsp.did_change(&uri, &[(None, text)]))
+                                .and_then(|_| {
+                                    // Back to the text of the case: in full, or by one didChange with
+                                    // two ranged changes in document order.
+                                    let h = sources.hash64();
+                                    if h % 3 == 0 {
+                                        let edits = crate::lspcheck::two_edits(detour, &text, ((h >> 8) as u32, (h >> 24) as u32));
+                                        let changes: Vec<(Option<((u32, u32), (u32, u32))>, String)> = edits.into_iter().map(|(rg, t)| (Some(rg), t)).collect();
+                                        lsp.did_change(&uri, &changes)
+                                    } else {
+                                        lsp.did_change(&uri, &[(None, text.clone())])
+                                    }
+                                })
                                 .and_then(|_| lsp.barrier(&uri));
                             match res {
                                 Ok(()) => {
